@@ -94,7 +94,7 @@ type c09leaf struct {
 }
 
 var (
-	c09I = []int64{7, -1, 0, math.MaxInt64, math.MinInt64, 1}
+	c09I = []int64{7, math.MaxInt64, -1, 0, math.MinInt64, 1}
 	c09U = []uint64{1 << 63, 7, 0, math.MaxUint64, 1}
 	c09F = []float64{1.5, 0, -2.5, 7, 1e19}
 	c09B = []bool{true, false}
@@ -412,7 +412,7 @@ func c09leaves(nI, nU, nF, nB, nS int) []c09leaf {
 func c09run(r *ev.Run) {
 	th := thorough(r)
 	full := c09leaves(len(c09I), len(c09U), len(c09F), len(c09B), len(c09S))
-	d2 := c09leaves(2, 1, 1, 2, 1)
+	d2 := c09leaves(3, 1, 1, 2, 1)
 	if th {
 		d2 = c09leaves(4, 3, 3, 2, 2)
 	}
